@@ -75,6 +75,7 @@ int cmd_nf(string arg) { rec("NF " + me() + " " + arg); notify_fail((: nf_cb, ar
 
 int cmd_any(string arg) {
   if (query_verb() == "nf") return 0;
+  if (query_verb() == "df") { rec("DFAIL " + me()); return 0; }     // nobody takes this verb and no notify_fail is set: the driver's default failure message
   rec("CMD " + me() + " " + query_verb() + (arg ? " " + arg : ""));
   return 1;
 }
